@@ -112,6 +112,8 @@ def program(draw, nmax=8, kinds=('call', 'await', 'map', 'amap', 'wait'), immedi
     out = {'T': T, 'form': draw(st.sampled_from(['direct', 'direct', 'deco-opts'])), 'fdur': fdur, 'fails': fails,
            'prog': prog, 'foreign': foreign, 'shutdown': sd,
            'func_fail_kind': draw(st.sampled_from(['exc', 'exc', 'exc', 'cancel', 'base']))}
+    if draw(st.integers(0, 3)) == 0:
+        out['mixed_args'] = True      # arguments of mixed, mutually unorderable types ('range' iterables stay ints)
     if not shutdown and draw(st.integers(0, 4)) == 0:
         # a second, independent buffer on the same loop whose function is busy for a while: buffers do not share anything
         out['other'] = {'at': draw(st.sampled_from([0, U, T / 2, T])), 'fdur': draw(st.sampled_from([0, T / 2, 2 * T, 5 * T])),
